@@ -6,7 +6,7 @@ META = {
     'level': 'proof',
     'technique': 'Lean 4 round-trip theorems parse(render(layout, records)) = installed(records) on raw bytes for the line formats whose parser lives in the repository, '
                  'record-loop = set-comprehension theorems on the decoded document for the library-decoded formats, + a generator/oracle stream through the real Extract of all twelve formats',
-    'design_ref': 'DESIGN.md §5 C03',
+    'design_ref': 'DESIGN.md §4 (section of C03), §5 (defects), §7 (seeded changes)',
     'text': 'Kernel-checked: for apk `installed`, gradle.lockfile, Gemfile.lock, dpkg `status` and requirements.txt the byte-level model of the extractor returns exactly the '
             'generated (name, version) list for every record list and every layout (record order, per-line LF/CRLF, final newline or not, any number of blank lines, comments, '
             'unrelated fields, white space; dpkg: the fields of a stanza in any permutation, case-insensitive field names, continuation lines; requirements.txt: the core grammar name[extras] op version # comment — environment markers, per-requirement options and backslash continuations are covered by the differential stream only; requirements files that include each other with -r: over any finite path -> content map of such files the scan of a top-level file reports its pins with Locations [top] and, exactly once for every file reachable through include lines resolved against the directory of the INCLUDING file, that file\'s pins with Locations [top, file], whatever the chain depth, routes, cycles or same-named files elsewhere); for package-lock.json v1-v3, Pipfile.lock, packages.lock.json and go.mod the record loop over '
